@@ -284,6 +284,8 @@ func (b *builder) make(s *Sch) core.ZodSchema {
 		return asSchema(applyCks(t, s.Cks, false))
 	case "rec":
 		return asSchema(applyCks(types.Record(build(s.Key), build(s.Elem)), s.Cks, false))
+	case "map":
+		return asSchema(applyCks(gozod.Map(build(s.Key), build(s.Elem)), s.Cks, false))
 	case "union", "xor":
 		opts := make([]any, len(s.Items))
 		for i, it := range s.Items {
@@ -403,7 +405,7 @@ func fieldCands(cs []*Sch, key string) []*Sch {
 			if !found && s.Catch != nil {
 				out = append(out, s.Catch)
 			}
-		case "rec":
+		case "rec", "map":
 			out = append(out, s.Elem)
 		}
 	}
